@@ -736,6 +736,17 @@ func vBuildTxn(run string, t []string) []byte {
 		}
 		pkgs = protocol.EncodeEvent(b, []byte("["+strings.Join(items, ",")+"]"))
 	}
+	var labels flatbuffers.UOffsetT
+	if ls, ok := vKV(t, "labels"); ok && ls != "" && ls != "-" {
+		var items []string
+		for _, p := range strings.Split(ls, ",") {
+			f := strings.SplitN(p, ":", 2)
+			if len(f) == 2 {
+				items = append(items, fmt.Sprintf(`{"label_type":%q,"label_value":%q}`, f[0], f[1]))
+			}
+		}
+		labels = protocol.EncodeEvent(b, []byte("["+strings.Join(items, ",")+"]"))
+	}
 	var trace flatbuffers.UOffsetT
 	if tr, ok := vKV(t, "tr"); ok {
 		f := strings.Split(tr, ":")
@@ -766,7 +777,8 @@ func vBuildTxn(run string, t []string) []byte {
 		f func(*flatbuffers.Builder, flatbuffers.UOffsetT)
 	}{{metrics, protocol.TransactionAddMetrics}, {errs, protocol.TransactionAddErrors}, {sqls, protocol.TransactionAddSlowSqls},
 		{customs, protocol.TransactionAddCustomEvents}, {spans, protocol.TransactionAddSpanEvents}, {logs, protocol.TransactionAddLogEvents},
-		{errEvs, protocol.TransactionAddErrorEvents}, {pkgs, protocol.TransactionAddPhpPackages}, {trace, protocol.TransactionAddTrace}} {
+		{errEvs, protocol.TransactionAddErrorEvents}, {pkgs, protocol.TransactionAddPhpPackages}, {trace, protocol.TransactionAddTrace},
+		{labels, protocol.TransactionAddLogForwardingLabels}} {
 		if x.o != 0 {
 			x.f(b, x.o)
 		}
@@ -780,6 +792,9 @@ func vBuildTxn(run string, t []string) []byte {
 	b.Finish(protocol.MessageEnd(b))
 	return b.Bytes[b.Head():]
 }
+
+// VerifBuildTxn builds a transaction message from key=value tokens (for engines outside this package).
+func VerifBuildTxn(run string, t []string) []byte { return vBuildTxn(run, t) }
 
 func vDecodeAppReply(buf []byte) string {
 	msg := protocol.GetRootAsMessage(buf, 0)
